@@ -3,6 +3,7 @@ reading of the package's sources with Python's `ast` (specs/pyoracle.py). Bounde
 fixture packages."""
 import inspect
 
+from pyvc import FIXTURES, HOME  # noqa: F401
 from pyvc.api import clause, contract, implies, old
 from specs import pyoracle
 
@@ -351,11 +352,11 @@ def _get_api_cases(seed, tier):
     from pathlib import Path
     from safeds_stubgen.api_analyzer import TypeSourcePreference, TypeSourceWarning
     from safeds_stubgen.docstring_parsing import DocstringStyle
-    pkgs = [("/verif/fixtures/pkgs/kwpkg", "PLAINTEXT"), ("/verif/fixtures/pkgs/tdpkg", "PLAINTEXT"),
-            ("/verif/fixtures/pkgs/advpkg", "PLAINTEXT"),
+    pkgs = [(FIXTURES + "/kwpkg", "PLAINTEXT"), (FIXTURES + "/tdpkg", "PLAINTEXT"),
+            (FIXTURES + "/advpkg", "PLAINTEXT"),
             ("/repo/tests/data/various_modules_package", "PLAINTEXT")]
     if tier != "quick":
-        pkgs += [("/verif/fixtures/pkgs/kwpkg", "NUMPYDOC"), ("/repo/tests/data/docstring_parser_package", "GOOGLE")]
+        pkgs += [(FIXTURES + "/kwpkg", "NUMPYDOC"), ("/repo/tests/data/docstring_parser_package", "GOOGLE")]
     for path, style in pkgs:
         for tr in (False, True):
             yield {"kwargs": {"root": Path(path), "docstring_style": DocstringStyle[style], "is_test_run": tr,
@@ -481,7 +482,7 @@ def _docs_cases(seed, tier):
                               "is_test_run": True, "type_source_preference": TypeSourcePreference[pref],
                               "type_source_warning": TypeSourceWarning.WARN}}
     for pkg in ("kwpkg", "advpkg"):
-        yield {"kwargs": {"root": Path("/verif/fixtures/pkgs/" + pkg), "docstring_style": DocstringStyle.NUMPYDOC,
+        yield {"kwargs": {"root": Path(FIXTURES + "/" + pkg), "docstring_style": DocstringStyle.NUMPYDOC,
                           "is_test_run": True, "type_source_preference": TypeSourcePreference.DOCSTRING,
                           "type_source_warning": TypeSourceWarning.IGNORE}}
 
